@@ -12,7 +12,7 @@ import (
 )
 
 var profile = storesim.Profile{
-	Name: "C02", WWrite: 30, WBig: 5, WConflict: 6, WRewrite: 4, WSnapshot: 14, WCompact: 12, WCompactFiles: 8, WBurst: 5,
+	Name: "C02", WWrite: 30, WBig: 5, WConflict: 6, WRewrite: 4, WSnapshot: 14, WCompact: 12, WCompactFiles: 8, WBurst: 5, WStagger: 3,
 	WDelete: 8, WDropSeries: 1, WDropMeas: 1, WReopen: 3, WRead: 16,
 	Windows: true, CheckReads: true, MaxOps: 40, MaxShards: 1,
 }
